@@ -303,6 +303,23 @@ def run(ctx):
     C.check(len(ro_positions(rf, {'clear'})) == 1, 'C05-PAIR-origins', 'remove_file|clears-map', 'remove_file no longer clears reference_origins when the model becomes empty')
 
     dev_map_rules(C, P, 'C05-DEV-insert', 'C05-DEV-remove')
+    # retargeting a reference (fix_reference_origins) is ONE update of the referrer map: the removal from the old list and the insertion
+    # into the new list happen under a single acquisition of the model's write lock.  Done with two separately locking helpers, another
+    # thread sees the reference in no list in between (get_references_to misses it, a concurrent rename does not rewrite it).
+    C.rule('C05-MUST-atomic-retarget', 'in fix_reference_origins the removal of the referrer from the old list and its insertion into the new list are direct operations on the map, both dominated by the same single RwLock::write of the model; no helper that takes the lock by itself is called for either half')
+    fro = P.find('AutosarModel::fix_reference_origins')
+    if fro is None:
+        C.anchor_missing('C05-MUST-atomic-retarget', 'AutosarModel::fix_reference_origins')
+    else:
+        ops_ = E.reforig_ops(fro)
+        direct = [o for o in ops_ if o['how'] == 'direct' and E.is_mutating(o)]
+        indirect = [o for o in ops_ if o['how'] != 'direct' and E.is_mutating(o)]
+        wl = calls(fro, r'RwLock::<R, T>::(write|try_write|try_write_for)$|RwLock<.*>::(write|try_write|try_write_for)$')
+        rem_side = [o for o in direct if o['op'] in ('get_mut', 'remove', 'swap_remove', 'shift_remove', 'remove_entry', 'entry')]
+        add_side = [o for o in direct if o['op'] in ('insert', 'get_mut', 'entry')]
+        ok = len(wl) == 1 and not indirect and len(direct) >= 2 and bool(rem_side) and bool(add_side) and all(fro.pos_dominates(wl[0], o['pos']) for o in direct)
+        C.check(ok, 'C05-MUST-atomic-retarget', 'fix_reference_origins|one-lock-for-remove-and-add', 'fix_reference_origins no longer removes the referrer from the old list and adds it to the new list under one write lock of the model (found %d lock acquisitions, %d direct and %d delegated map operations): between the two halves the reference is in no referrer list' % (len(wl), len(direct), len(indirect)),
+                '%s:%d' % (fro.file, fro.line), sample={'fn': 'fix_reference_origins', 'write_locks': len(wl), 'direct_map_ops': len(direct)})
     # ---- SIB-report --------------------------------------------------------------------------------
     cr = P.get('AutosarModel::check_references')
     gt = P.get('Element::get_reference_target')
